@@ -4,12 +4,13 @@
 
    Reading guide.  [run fx acts st_init] is the state after ANY finite sequence of the
    modelled atomic steps (seeds, referrals with arbitrary content and clock readings,
-   admissions, cache hits, folds, removals) from empty caches; [fx = false] is the code
-   as it is, [fx = true] the step function with props/C08/fix.patch applied.  A lineage
+   admissions, cache hits, folds, removals) from empty caches; [code_fx] (= true) selects
+   the step function of the code as it is since fix commit c959b0e; the pre-fix variant
+   ([fx = false]) survives only in the regression examples of Proofs_thm.v.  A lineage
    element [l] is one parent-side referral; [l_code l] is the deadline the code derives
    for it (observed + min(NS TTL, DS TTL), limited by every shallower cut on the path);
    [l_spec l] is the lease the property grants: [l_code l] further limited by
-   observed + 12 h. *)
+   observed + 12 h (for the code as it is the two coincide: [code_lease_is_granted_lease]). *)
 From Sdns Require Import Common.Base Gen.C08 C08.Model C08.Proofs_base C08.Proofs_inv C08.Proofs_thm.
 Open Scope Z_scope.
 
@@ -66,13 +67,12 @@ Theorem get_after_expiry_misses : forall c now k d, c k = Some d -> d_exp d <= n
 Proof. exact dc_get_expired. Qed.
 Print Assumptions get_after_expiry_misses.
 
-(* the property measures the 12 h ceiling from the observation; the code measures it from the
-   store: REFUTED for the code as it is (one second of latency = one more second of lease) *)
-Theorem lease_ceiling_from_observation_refuted :
-  let st := run false (witness_acts 1000000000) st_init in
-  exists d l, st_dc st wz = Some d /\ d_lin d = [l] /\ l_obs l = 0 /\ d_exp d = 12 * h + 1000000000.
-Proof. exact witness_ceiling_anchor. Qed.
-Print Assumptions lease_ceiling_from_observation_refuted.
+(* the 12 h ceiling counts from the observation instant, whatever the validation / lookup latency *)
+Theorem lease_ceiling_from_observation : forall st i r rs d, plain_miss st i r rs ->
+  st_dc (process_delegation code_fx st i r) (r_zone r) = Some d -> st_dc st (r_zone r) <> Some d ->
+  d_exp d <= r_obs r + max_ttl.
+Proof. exact lease_ceiling_code. Qed.
+Print Assumptions lease_ceiling_from_observation.
 
 (* ---- lease_not_extendable *)
 
@@ -110,62 +110,34 @@ Print Assumptions self_upward_sideways_rejected.
 
 (* ---- follows_parent_after_lease *)
 
-(* FULL STATEMENT (property wording): the first query at t >= l_spec l walks up to the parent
-   and nothing learned through l is served.  Proved for the code relative to l_code
-   (= l_spec whenever min(NS TTL, DS TTL) <= 12 h), and at full strength for the repaired step. *)
-Theorem follows_parent_after_lease_partial : forall fx acts st l z now q is_ds,
-  st = run fx acts st_init -> l_code l <= now -> z <> [] -> is_prefix z q = true ->
-  (forall k d, is_prefix z k = true -> st_dc st k = Some d -> In l (d_lin d)) ->
-  strict_above (m_zone (search_cache (st_dc st) now q is_ds)) z = true /\
-  (forall e, In e (st_ans st) -> In l (ae_lin e) -> ae_served e now = false).
-Proof. exact follows_parent_lemma. Qed.
-Print Assumptions follows_parent_after_lease_partial.
-
-Theorem follows_parent_after_lease_repaired : forall acts st l z now q is_ds,
-  st = run true acts st_init -> l_spec l <= now -> z <> [] -> is_prefix z q = true ->
+(* once the lease the parent granted through l has run out (t >= l_spec l), and everything cached at
+   or below z was learned through l (no newer referral from the parent side): the next resolution of a
+   name under z starts at servers of a zone strictly above z, and nothing learned through l is served *)
+Theorem follows_parent_after_lease : forall acts st l z now q is_ds,
+  st = run code_fx acts st_init -> l_spec l <= now -> z <> [] -> is_prefix z q = true ->
   (forall k d, is_prefix z k = true -> st_dc st k = Some d -> In l (d_lin d)) ->
   strict_above (m_zone (search_cache (st_dc st) now q is_ds)) z = true /\
   (forall e, In e (st_ans st) -> In l (ae_lin e) -> ae_served e now = false).
 Proof. exact follows_parent_repaired. Qed.
-Print Assumptions follows_parent_after_lease_repaired.
+Print Assumptions follows_parent_after_lease.
 
 (* ---- learned_through_dies_with_lease *)
 
-(* FULL STATEMENT: forall acts, let st := run false acts st_init in
-     (forall e l, In e (st_ans st) -> In l (ae_lin e) -> ae_end e <= l_spec l) /\
-     (forall z d l, st_dc st z = Some d -> In l (d_lin d) -> d_exp d <= l_spec l).
-   REFUTED for the code as it is: the first, uncached descent notes observed + TTL without
-   the 12 h ceiling (finding lease-12h-ceiling-answer-cut, DESIGN §6 F3). *)
-Theorem learned_through_dies_with_lease_refuted :
-  let st := run false (witness_acts 0) st_init in
-  exists e l d,
-    st_ans st = [e] /\ ae_lin e = [l] /\ st_dc st wz = Some d /\ d_lin d = [l] /\
-    l_obs l = 0 /\ l_spec l = 12 * h /\ d_exp d = 12 * h /\ ae_end e = 24 * h /\
-    dc_get (st_dc st) (12 * h + 1000000000) wz = None /\
-    ae_served e (12 * h + 1000000000) = true.
-Proof. exact witness_run. Qed.
-Print Assumptions learned_through_dies_with_lease_refuted.
-
-(* proved: everything learned through l (answers, denials, DS, DNSKEY, deeper delegations; longer
-   own TTL, background refresh and the 5 s floor notwithstanding) has ended by l_code l ... *)
-Theorem learned_through_dies_with_lease_partial : forall fx acts st, st = run fx acts st_init ->
-  (forall e l, In e (st_ans st) -> In l (ae_lin e) -> ae_end e <= l_code l) /\
-  (forall z d l, st_dc st z = Some d -> In l (d_lin d) -> d_exp d <= l_code l).
-Proof. exact learned_through_code. Qed.
-Print Assumptions learned_through_dies_with_lease_partial.
-
-(* ... which is the granted lease whenever the referral's own TTL is within 12 h ... *)
-Theorem learned_through_dies_with_lease_short_ttl : forall acts st, st = run false acts st_init ->
-  forall e l, In e (st_ans st) -> In l (ae_lin e) -> l_ttl l <= max_ttl -> ae_end e <= l_spec l.
-Proof. exact learned_through_short_ttl. Qed.
-Print Assumptions learned_through_dies_with_lease_short_ttl.
-
-(* ... and always with the repair *)
-Theorem learned_through_dies_with_lease_repaired : forall acts st, st = run true acts st_init ->
+(* every answer / denial / DS / DNSKEY and every deeper delegation learned through a parent-side
+   referral l has ended by the lease the property grants for l — longer own TTL, background refresh,
+   cache hits of other material and the 5 s floor notwithstanding; for every history *)
+Theorem learned_through_dies_with_lease : forall acts st, st = run code_fx acts st_init ->
   (forall e l, In e (st_ans st) -> In l (ae_lin e) -> ae_end e <= l_spec l) /\
   (forall z d l, st_dc st z = Some d -> In l (d_lin d) -> d_exp d <= l_spec l).
 Proof. exact learned_through_fixed. Qed.
-Print Assumptions learned_through_dies_with_lease_repaired.
+Print Assumptions learned_through_dies_with_lease.
+
+(* the deadline the code derives is the granted lease, for every referral in every lineage *)
+Theorem code_lease_is_granted_lease : forall acts st, st = run code_fx acts st_init ->
+  (forall e l, In e (st_ans st) -> In l (ae_lin e) -> l_spec l = l_code l /\ l_code l <= l_obs l + l_ttl l) /\
+  (forall z d l, st_dc st z = Some d -> In l (d_lin d) -> l_spec l = l_code l /\ l_code l <= l_obs l + l_ttl l).
+Proof. exact lineage_wf_fixed. Qed.
+Print Assumptions code_lease_is_granted_lease.
 
 (* what a request tree admits carries the lineage of every resolution still on its path *)
 Theorem admission_inherits_path_lineage : forall fx acts st i rs tree key ttl now,
